@@ -15,6 +15,7 @@ import BR.Model.Helpers
 import BR.Model.RRT
 import BR.Model.HeapOps
 import BR.Model.Arm
+import BR.Model.IK
 
 namespace BR.Driver
 
@@ -356,6 +357,27 @@ def parseOp (name : String) (l : List Float) (n : Nat) : Option (Op Float) :=
 
 end ArmIO
 
+namespace IKIO
+open BR.IKModel BR.MR MRIO
+
+/-- ik.check n home16 screws(n×6) goal16 rotTol posTol θ(n) -> err ‖ω‖ ‖v‖ -/
+def handle (fn : String) (a : List Float) : Option (List Float) :=
+  match fn, a with
+  | "ik.check", nf :: r => do
+    let n := nf.toUInt64.toNat
+    let (home, r) ← t4 r
+    let (ss, r) ← ArmIO.screws n r
+    let (goal, r) ← t4 r
+    match r with
+    | rot :: pos :: r =>
+      let (th, _) ← ArmIO.takeN n r
+      let V := errTwist m3IsZeroF home ss goal th
+      some [if ikTest m3IsZeroF home ss goal rot pos th then 1 else 0, norm3 V.a, norm3 V.b]
+    | _ => none
+  | _, _ => none
+
+end IKIO
+
 /-- stateful requests; `none` = not a stateful request -/
 def handleState (st : DState) (fn : String) (args : List String) : Option (DState × String) :=
   match fn with
@@ -440,10 +462,11 @@ def handle (fn : String) (args : List String) : String :=
           toString (obstruction2_gen a b c d e f g h i j k l m n o p q r)
       | _ => "bad-op"
   | _ =>
-    if fn.startsWith "mr." || fn.startsWith "scr." || fn.startsWith "hlp." then
+    if fn.startsWith "mr." || fn.startsWith "scr." || fn.startsWith "hlp." || fn.startsWith "ik." then
       match allSome (args.map parseFloat) with
       | some fl => match (if fn.startsWith "mr." then MRIO.handle fn fl
-                          else if fn.startsWith "scr." then ScrIO.handle fn fl else HlpIO.handle fn fl) with
+                          else if fn.startsWith "scr." then ScrIO.handle fn fl
+                          else if fn.startsWith "ik." then IKIO.handle fn fl else HlpIO.handle fn fl) with
         | some out => " ".intercalate (out.map fmtFloat)
         | none => "bad-op"
       | none => "bad-op"
